@@ -70,6 +70,7 @@ def make_case(rng):
         prods = gram.gen_prefix_group_grammar(rng, terms)
     else:
         prods = gram.gen_grammar(rng, terms, max_alts=rng.choice([3, 4, 4, 6, 7]))
+    prods = gram.shuffle_declaration_order(rng, prods)
     return cfg_id, terms, prods
 
 
